@@ -662,6 +662,19 @@ class Evaluator:
                     if f.id in ("reversed", "enumerate", "zip", "range"):
                         return list(r)
                     return r
+            if f.id == "dict" and node.keywords and \
+                    all(k.arg is not None for k in node.keywords) and \
+                    len(node.args) <= 1:
+                # dict(a=1, b=2) / dict(mapping, a=1)
+                out = {}
+                if node.args:
+                    m = self.ev(node.args[0])
+                    if not isinstance(m, (dict, list, tuple)):
+                        raise Unsupported("table evaluator: dict(%r)" % (m,))
+                    out.update(dict(m))
+                for k in node.keywords:
+                    out[k.arg] = self.ev(k.value)
+                return out
             if f.id in PURE_BUILTINS:
                 vals = [self.ev(a) for a in node.args]
                 kws = {k.arg: self.ev(k.value) for k in node.keywords
@@ -1137,6 +1150,19 @@ class Evaluator:
             for t in st.targets:
                 self.bind(t, v)
             return
+        if isinstance(st, ast.Assign) and len(st.targets) > 1:
+            # a = x.y = z[k] = value: one evaluation, stored left to right
+            v = self.ev(st.value)
+            holder = "$chain%d" % id(st)
+            self.env[holder] = v
+            for t in st.targets:
+                one = ast.Assign(targets=[t],
+                                 value=ast.Name(id=holder, ctx=ast.Load()))
+                ast.copy_location(one, st)
+                ast.fix_missing_locations(one)
+                self.stmt(one)
+            del self.env[holder]
+            return
         if isinstance(st, ast.Assign) and len(st.targets) == 1:
             t = st.targets[0]
             if isinstance(t, ast.Name):
@@ -1149,6 +1175,25 @@ class Evaluator:
                 self.bind(t, self.ev(st.value))
                 return
             value = self.ev(st.value)
+            if isinstance(t, (ast.Tuple, ast.List)) and not any(
+                    isinstance(e, ast.Starred) for e in t.elts):
+                # (a.x, b[k], c) = value: unpack, then store element-wise
+                try:
+                    items = list(value)
+                except TypeError:
+                    raise Raised("builtins.TypeError")
+                if len(items) != len(t.elts):
+                    raise Raised("builtins.ValueError")
+                for i, (e, item) in enumerate(zip(t.elts, items)):
+                    holder = "$unpack%d_%d" % (id(st), i)
+                    self.env[holder] = item
+                    one = ast.Assign(targets=[e], value=ast.Name(
+                        id=holder, ctx=ast.Load()))
+                    ast.copy_location(one, st)
+                    ast.fix_missing_locations(one)
+                    self.stmt(one)
+                    del self.env[holder]
+                return
             if self.hooks is not None:
                 r = self.hooks.store(self, t, value, st)
                 if r is not NotImplemented:
